@@ -12,13 +12,15 @@ BUILT = {
             "Same kernel under FIFO; every job of every task is monitored against the single bound; >99% of bounds attained exactly on the unchanged tree."),
     "C18": ("3.11", "deterministic simulation: constructive worst-case adversary in the kernel; equality of observed maximum and bound",
             "For task sets whose curves are attained by their dense sequences, the constructive worst-case schedule is simulated and the largest response must EQUAL the bound of FP-P, FP-NP and FIFO (equality held in all analysed entities on the unchanged tree), which exposes pessimistic as well as optimistic one-tick changes."),
+    "C09": ("3.6", "deterministic simulation: reservation server with adversarial budget placement, every window metered against provided_service / service_time (specialised and default)",
+            "A reservation-server stub places its budget anywhere the model allows (early, late, early-then-late, random, over-provisioned) over 8 periods, plus static cyclic slot-table servers; every window of every length up to 4P is metered and every demand up to 3Q drained from every instant. Minimum metered service must EQUAL provided_service and maximum drain time must EQUAL service_time for the closed-form and for the trait-default implementation; exhaustive over all (Q,D,P) with P <= 9 (quick) / 16 (thorough) plus random larger ones."),
+    "C10": ("3.7", "deterministic simulation: event sources following each model's documented process with injected delays, stretching, reordering and merging; window counts over the recorded history",
+            "Event-source stubs generate streams from the process each arrival model documents (not from the library's curve): phases, gap stretching, per-event release jitter with reordering, bursts where delta-min is 0, nested per-event delays for Propagated/clone_with_jitter, merged component streams. Every window [t_i, t_j] of the recorded history is counted against number_arrivals; the maximal-rate stream of Periodic/Sporadic must attain it."),
 }
 
 NOT_YET = {
     "C04": "claimed in DESIGN.md section 3.4; check not built yet (in progress)",
     "C05": "claimed in DESIGN.md section 3.5; check not built yet (in progress)",
-    "C09": "claimed in DESIGN.md section 3.6; check not built yet (in progress)",
-    "C10": "claimed in DESIGN.md section 3.7; check not built yet (in progress)",
     "C12": "claimed in DESIGN.md section 3.8; check not built yet (in progress)",
     "C13": "claimed in DESIGN.md section 3.9; check not built yet (in progress)",
     "C14": "claimed in DESIGN.md section 3.10; check not built yet (in progress)",
